@@ -1,3 +1,4 @@
+mod bigshape;
 mod coord;
 mod disk;
 mod exec;
@@ -7,6 +8,7 @@ mod model;
 mod project;
 mod rng;
 mod scenario;
+mod spawn;
 
 use std::collections::BTreeMap;
 
@@ -57,7 +59,35 @@ fn main() {
         }
         Some("worker") => {
             let n = |i: usize| -> u64 { a[i].parse().unwrap() };
-            coord::worker(&a[2], n(3), n(4), n(5), n(6), n(7), n(8));
+            coord::worker(&a[2], &a[3], n(4), n(5), n(6), n(7), n(8), n(9));
+        }
+        Some("one") => {
+            // run one seed of a profile (used to locate a seed that kills the process)
+            let seed: u64 = a[3].parse().unwrap();
+            let sb = exec::Sandbox::new(&format!("one{}", seed));
+            if a[2] == "spawn" {
+                let _ = spawn::run(&spawn::gen(seed), &sb);
+            } else {
+                let _ = exec::run_scenario(&scenario::gen_scenario(seed, &scenario::Profile::for_property(&a[2])), &sb, false);
+            }
+        }
+        Some("spawndev") => {
+            let from: u64 = a[2].parse().unwrap();
+            let to: u64 = a[3].parse().unwrap();
+            let sb = exec::Sandbox::new("spawndev");
+            let mut n = 0;
+            for seed in from..to {
+                let sc = spawn::gen(seed);
+                let r = spawn::run(&sc, &sb);
+                n += r.commands;
+                for (c, d) in &r.violations {
+                    eprintln!("VIOL seed {}: {} {}", seed, c, d);
+                    if a.get(4).is_some() {
+                        eprintln!("{}", spawn::render(&sc));
+                    }
+                }
+            }
+            eprintln!("{} commands", n);
         }
         Some("replay") => {
             let v = a.get(3).map(|s| s == "v").unwrap_or(false);
